@@ -131,6 +131,29 @@ pub fn gen_c02(r: &mut Rng, id: usize, _thorough: bool) -> Group {
         g.labels.push("kind:computed-edge".into());
         return g;
     }
+    if r.below(14) == 0 {
+        // EVERY control character (C0, DEL, C1) and the code points around the edges of the printer's ranges, each as a string
+        // of its own and as a member name: all must come out in a spelling RFC 8259 allows (the strict reader knows the nine
+        // two-character escapes and \uXXXX, nothing else)
+        let mut cps: Vec<u32> = (0u32..0x20).collect();
+        cps.extend([0x7e, 0x7f, 0x80, 0x85, 0x9f, 0xa0, 0xad, 0x2028, 0x2029, 0xd7ff, 0xe000, 0xfffd, 0xfffe, 0xffff]);
+        let esc = |cp: u32| format!("\\u{:04x}", cp);
+        let mut text = String::from("[");
+        text.push_str(&cps.iter().map(|c| format!("\"{}\"", esc(*c))).collect::<Vec<_>>().join(","));
+        text.push_str("]\n{");
+        text.push_str(&cps.iter().map(|c| format!("\"k{}\":\"a{}b\"", esc(*c), esc(*c))).collect::<Vec<_>>().join(","));
+        text.push_str("}\n");
+        let vals: Vec<V> = text.lines().map(|l| crate::value::strict_parse(l.as_bytes()).expect("generated row")).collect();
+        let mut c = base_case(format!("C02-{id}-every-control"));
+        c.sources.push(stdin_src(text.into_bytes()));
+        c.spec.jstyle = match r.below(4) { 0 => None, 1 => Some("one-line".into()), 2 => Some("consise".into()), _ => Some("pretty".into()) };
+        c.spec.utf8 = r.chance(50);
+        let mut g = Group::new(vec![c]);
+        g.values = vals;
+        g.nontrivial = true;
+        g.labels.push("kind:every-control-character".into());
+        return g;
+    }
     if r.below(12) == 0 {
         // runs of rows that jawk's `==` calls equal although they are different values (member order; an integer next to the
         // double it rounds to; -0 next to 0 is left to C10's exclusions): every row must still be printed as ITS value
